@@ -148,6 +148,7 @@ int main(int argc, char** argv) {
     long cases = a.num("cases", 20000);
     g_light = (R.variant == "tsan") || a.has("light");
     bool hot = a.num("hot", 1) != 0;
+    bool do_perturb = a.num("perturb", 1) != 0;   // store-buffer windows need raw volume, not delays
     std::vector<int> ids = { 90, 91, 92, 93, 94, 95, 8, 10 };
     Rng top(mix(R.seed, 0xC04));
     tbb::global_control gc(tbb::global_control::max_allowed_parallelism, 16);
@@ -158,6 +159,70 @@ int main(int argc, char** argv) {
         R.violation(hi.quiescent ? "c04.hang.quiescent" : "c04.hang.spin-stall", d, "{}");
         R.finish_and_exit(3);
     });
+    if (R.mode == "sb") {
+        // Store-buffer litmus for the binding fast path: a context P that has a parent G and no children yet; one thread
+        // binds P's first child C (relaxed store of may_have_children, speculative load of P's flag, then the fence) while
+        // a foreign thread, released by a flag at that very moment, cancels P (exchange, then load of may_have_children).
+        // Whatever the order, once both have returned C must be cancelled; G must not be.
+        tbb::task_arena A(4); A.initialize();
+        std::atomic<int> go{0}; std::atomic<bool> stop{false};
+        std::atomic<tbb::task_group_context*> target{nullptr};
+        std::atomic<int> cancel_done{0}; std::atomic<unsigned> skew_c{0};
+        std::thread foreign([&] {
+            int seen = 0;
+            while (!stop.load(std::memory_order_relaxed)) {
+                int g = go.load(std::memory_order_acquire);
+                if (g == seen) { _mm_pause(); continue; }
+                seen = g;
+                spin_iters(skew_c.load(std::memory_order_relaxed));
+                bool won = target.load(std::memory_order_relaxed)->cancel_group_execution();
+                cancel_done.store(won ? 2 : 1, std::memory_order_release);
+            }
+        });
+        long bad = 0;
+        for (long k = 0; k < cases; k++) {
+            Rng r(top.next());
+            tbb::task_group_context G, P, C;
+            unsigned skew_b = (unsigned)r.below(r.chance(1, 2) ? 120 : 700), sk = (unsigned)r.below(r.chance(1, 2) ? 20 : 200);
+            bool pre_child = r.chance(1, 8);   // sometimes P already has a child: then the canceller must propagate
+            tbb::task_group_context C0;
+            std::atomic<int> c_ran{0};
+            A.execute([&] {
+                tbb::parallel_for(0, 1, [&](int) {
+                    tbb::parallel_for(0, 1, [&](int) {
+                        if (pre_child) tbb::parallel_for(0, 1, [](int) {}, tbb::simple_partitioner(), C0);
+                        target.store(&P, std::memory_order_relaxed); skew_c.store(sk, std::memory_order_relaxed); cancel_done.store(0, std::memory_order_relaxed);
+                        go.fetch_add(1, std::memory_order_release);
+                        spin_iters(skew_b);
+                        tbb::parallel_for(0, 1, [&](int) { c_ran.fetch_add(1, std::memory_order_relaxed); }, tbb::simple_partitioner(), C);
+                        while (!cancel_done.load(std::memory_order_acquire)) _mm_pause();
+                    }, tbb::simple_partitioner(), P);
+                }, tbb::simple_partitioner(), G);
+            });
+            bool pc = P.is_group_execution_cancelled(), cc = C.is_group_execution_cancelled(), gc2 = G.is_group_execution_cancelled();
+            bool c0c = C0.is_group_execution_cancelled();
+            R.scenarios++; R.nontrivial++;
+            R.signature(mix(mix(skew_b, sk), (uint64_t)c_ran.load() * 2 + pre_child));
+            R.stat(c_ran.load() ? "sb_child_body_ran_before_cancel" : "sb_child_found_parent_cancelled");
+            std::string det;
+            if (cancel_done.load() != 2) det = "the only cancel call on P did not return true";
+            else if (!pc) det = "P not cancelled after a winning cancel";
+            else if (!cc) det = "child C bound under P concurrently with cancel(P) is not cancelled (its body ran: " + std::to_string(c_ran.load()) + ")";
+            else if (pre_child && !c0c) det = "earlier child C0 of P not cancelled";
+            else if (gc2) det = "grand-parent G cancelled by a cancel of P";
+            if (!det.empty()) {
+                bad++;
+                Json j; j.obj(); j.kv("mode", "sb"); j.kv("skew_binder", skew_b); j.kv("skew_canceller", sk); j.kv("pre_child", pre_child); j.end_obj();
+                R.violation(!cc && pc ? "c04.descendant-missed" : "c04.sb-inconsistent", det, j.s);
+                if (bad > 20) break;
+            }
+            progress();
+        }
+        stop.store(true); foreign.join();
+        watchdog_stop();
+        R.write();
+        return 0;
+    }
     long done = 0;
     while (done < cases) {
         int conc = (int)top.pick(std::vector<int>{ 2, 3, 4, 8, 8, 16 });
@@ -169,7 +234,7 @@ int main(int argc, char** argv) {
             Scen s; s.seed = top.next(); Rng r(s.seed);
             s.maxn = 8 + (int)r.below(60); s.maxd = 2 + (int)r.below(4); s.fan = 2 + (int)r.below(3); s.B = r.chance(1, 3) ? &B : nullptr;
             cur.store(&s);
-            perturb_random(r, ids);
+            if (do_perturb) perturb_random(r, ids);
             int root = s.add(-1, true, 0);
             bool with_foreign = r.chance(2, 3);
             std::thread foreign;
